@@ -180,24 +180,41 @@ func c37(r *core.Report, p *core.Prog, thorough bool) {
 		r.Unresolved("C37.restart", "Round.Restart")
 	} else {
 		li := w.Info[rs]
-		gs := findCalls(rs, "(*"+pkgRound+".Round).getState")
-		inits := findCalls(rs, "(*"+pkgRound+".Round).initialize")
-		if r.Check(len(gs) == 1 && len(inits) == 1, "C37.restart", "Restart:shape", p.Pos(rs.Pos()), fmt.Sprintf("getState=%d initialize=%d", len(gs), len(inits))) {
-			held := li.AtInstr[gs[0]]
+		// the phase read and the reset: in Restart or in helpers of the package it calls
+		gsl := LiftCalls(rs, core.NameIs("(*"+pkgRound+".Round).getState"), 1)
+		initl := LiftCalls(rs, core.NameIs("(*"+pkgRound+".Round).initialize"), 1)
+		if r.Check(len(gsl) == 1 && len(initl) == 1, "C37.restart", "Restart:shape", p.Pos(rs.Pos()), fmt.Sprintf("getState=%d initialize=%d", len(gsl), len(initl))) {
+			gs, inits := gsl[0].Site, initl[0].Site
+			held := li.AtInstr[gs]
 			wr, ok := held["r.mutex"]
-			r.Check(ok && wr, "C37.restart", "Restart:guard-under-lock", p.Pos(gs[0].Pos()), "the phase must be read while r.mutex is write-held (else a notarization can land between the check and the reset)")
-			held2 := li.AtInstr[inits[0]]
+			r.Check(ok && wr, "C37.restart", "Restart:guard-under-lock", p.Pos(gs.Pos()), "the phase must be read while r.mutex is write-held (else a notarization can land between the check and the reset)")
+			held2 := li.AtInstr[inits]
 			wr2, ok2 := held2["r.mutex"]
-			r.Check(ok2 && wr2, "C37.restart", "Restart:reset-under-lock", p.Pos(inits[0].Pos()), "the reset runs under the same lock")
+			r.Check(ok2 && wr2, "C37.restart", "Restart:reset-under-lock", p.Pos(inits.Pos()), "the reset runs under the same lock")
 			// no unlock between guard and reset
 			between := false
 			for _, cs := range core.CallsIn(rs, false, nil) {
-				if pth, op := lockOp(cs.Common()); pth == "r.mutex" && (op == "unlock" || op == "lock") && core.Reaches(gs[0], cs.Instr) && core.Reaches(cs.Instr, inits[0]) {
+				if pth, op := lockOp(cs.Common()); pth == "r.mutex" && (op == "unlock" || op == "lock") && core.Reaches(gs, cs.Instr) && core.Reaches(cs.Instr, inits) {
 					between = true
 				}
 			}
 			r.Check(!between, "C37.restart", "Restart:one-critical-section", p.Pos(rs.Pos()), "check and reset in one critical section")
-			r.Check(HasCmp(inits[0].Block(), "getState()", token.LSS, "3") || guardLess(inits[0], gs[0]), "C37.restart", "Restart:guard-dominates-reset", p.Pos(inits[0].Pos()), "the reset is dominated by phase < Share")
+			okGuard := HasCmp(inits.Block(), "getState()", token.LSS, "3")
+			if !okGuard && gsl[0].Direct() {
+				okGuard = guardLess(inits, gsl[0].Call)
+			}
+			if !okGuard {
+				// the phase test as a boolean helper: its true outcome states getState() < Share
+				for _, c := range CmpFacts(inits.Block()) {
+					inner, _ := core.Unbind(c.X)
+					if gc, _ := core.CallOf(inner); gc != nil && gc == gsl[0].Call && c.Op == token.LSS {
+						if k, isK := core.ConstInt(c.Y); isK && k == 3 {
+							okGuard = true
+						}
+					}
+				}
+			}
+			r.Check(okGuard, "C37.restart", "Restart:guard-dominates-reset", p.Pos(inits.Pos()), "the reset is dominated by phase < Share")
 		}
 	}
 	// ---- monotone
